@@ -1000,7 +1000,11 @@ func c10VerifySide(c *Ctx) {
 		if len(calls) != 1 {
 			c.Fail(rf, p.FName(fn)+" primary chain check", p.Pos(fn.Pos()), fmt.Sprintf("%d calls to Signature.VerifyChain, expected 1", len(calls)))
 		} else {
-			tArg := calls[0].Common().Args[4]
+			tArg := c10ChainArg(p, calls[0], "time")
+			if tArg == nil {
+				c.Fail(rf, p.FName(fn)+" judged at attested time", p.Pos(calls[0].Pos()), "the time the primary chain is judged at is not passed (left at its zero value, or not recognised)")
+				return
+			}
 			tsOK := p.callGuard("CounterSignature.VerifyChain()==nil", []string{"(lib/pkcs9.CounterSignature).VerifyChain"}, -1, IsNil, nil)
 			okAll := true
 			sawAttested := false
@@ -1008,6 +1012,16 @@ func c10VerifySide(c *Ctx) {
 				_, f, _ := p.fieldLoad(lf.V)
 				if f == "SigningTime" {
 					sawAttested = true
+					if _, isPhi := tArg.(*ssa.Phi); !isPhi {
+						// not a merge: the attested time is read (and put into the options) at one place,
+						// which has to lie behind the timestamp's own chain check
+						if in, ok := lf.V.(ssa.Instruction); ok {
+							if missing, _ := p.unguardedFromEntry(fn, in, tsOK); len(missing) > 0 {
+								okAll = false
+							}
+						}
+						continue
+					}
 					if leafUnguarded(fn, lf, tsOK) {
 						okAll = false
 					}
@@ -1054,9 +1068,16 @@ func c10VerifySide(c *Ctx) {
 		calls := p.callsIn(fn, "(lib/pkcs7.Signature).VerifyChain")
 		ok := len(calls) == 1
 		if ok {
-			a := calls[0].Common().Args
-			_, f, _ := p.fieldLoad(a[4])
-			k, isK := constInt(a[3])
+			tArg, uArg := c10ChainArg(p, calls[0], "time"), c10ChainArg(p, calls[0], "usage")
+			f := ""
+			if tArg != nil {
+				_, f, _ = p.fieldLoad(tArg)
+			}
+			var k int64
+			isK := false
+			if uArg != nil {
+				k, isK = constInt(uArg)
+			}
 			ok = f == "SigningTime" && isK && k == 8 // x509.ExtKeyUsageTimeStamping
 		}
 		c.Check(ok, rf, p.FName(fn)+" timestamping usage at its own time", p.Pos(fn.Pos()), "VerifyChain(…, ExtKeyUsageTimeStamping, cs.SigningTime)", "the timestamp's chain is not validated for the time-stamping usage at its signing time")
@@ -1067,8 +1088,10 @@ func c10VerifySide(c *Ctx) {
 		for _, b := range fn.Blocks {
 			for _, in := range b.Instrs {
 				if st, ok2 := in.(*ssa.Store); ok2 {
-					if _, f, _ := p.fieldAddr(st.Addr); f == "CurrentTime" && len(fn.Params) >= 5 && dependsOn(st.Val, func(x ssa.Value) bool { return x == fn.Params[4] }) {
-						ok = true
+					if _, f, _ := p.fieldAddr(st.Addr); f == "CurrentTime" {
+						if _, _, isIn := inputOf(fn, st.Val); isIn {
+							ok = true
+						}
 					}
 				}
 			}
@@ -1143,4 +1166,38 @@ func c10Attested(c *Ctx) {
 		}
 	}
 	c.Check(ok, "R10g", "TimestampAndMarshal self-checks after attaching the token", p.Pos(tm.Pos()), "no AddStampTo* call can follow the Verify whose result is checked for a timestamp", "the self-check (SignedData.Verify + VerifyOptionalTimestamp) can run before the timestamp token is attached: it inspects a snapshot that does not carry the token, so a wrong token (stale cache entry, other signature's token) is attached and shipped unverified")
+}
+
+// c10ChainArg: what a call of pkcs7.Signature.VerifyChain passes as the judging time ("time") or
+// as the required key usage ("usage"): the argument, or the field of the options struct, that
+// VerifyChain stores into x509.VerifyOptions.CurrentTime / KeyUsages. nil: not passed (zero value).
+func c10ChainArg(p *Prog, call ssa.CallInstruction, which string) ssa.Value {
+	vc := p.Func("lib/pkcs7.(Signature).VerifyChain")
+	if vc == nil {
+		return nil
+	}
+	for _, b := range vc.Blocks {
+		for _, in := range b.Instrs {
+			st, ok := in.(*ssa.Store)
+			if !ok {
+				continue
+			}
+			pi, path, isIn := inputOf(vc, st.Val)
+			if !isIn {
+				continue
+			}
+			hit := false
+			switch which {
+			case "time":
+				_, f, _ := p.fieldAddr(st.Addr)
+				hit = f == "CurrentTime"
+			case "usage":
+				hit = strings.HasSuffix(st.Val.Type().String(), "crypto/x509.ExtKeyUsage")
+			}
+			if hit {
+				return actualOf(call.Common(), pi, path)
+			}
+		}
+	}
+	return nil
 }
